@@ -28,7 +28,7 @@ RULE = (
     "is sliced or >=2 indices removed"
 )
 ASSUMPTIONS = ["dense reference evaluator (cross-checked with numpy in C01)"]
-REQUIRED_MONITORS = ["contract_with_options", "history_cases", "key_bijection", "slice_value", "slice_arrays", "gather", "gather_lazy", "gather_stripped", "chunks", "chunk_tiles"]
+REQUIRED_MONITORS = ["mpi_route", "contract_with_options", "history_cases", "key_bijection", "slice_value", "slice_arrays", "gather", "gather_lazy", "gather_stripped", "chunks", "chunk_tiles"]
 SHARD_TIMEOUT = {"quick": 400, "thorough": 3600}
 
 
@@ -219,6 +219,42 @@ def execute(rep, case):
                     return r
         except Exception as e:
             return ("raises", f"reassembly raised {type(e).__name__}: {e} | {traceback.format_exc()[-300:]}")
+
+        # ---- the MPI route: slices dealt out to processes, every slice contracted exactly once ----
+        # (no mpi4py here: a duck-typed communicator with rank / size / Allreduce / Reduce, the ranks
+        # simulated one after another; what the reduction would produce is the sum of the send buffers)
+        if nsl >= 2 and not any(ix in net.output for ix in rem_names):
+            rm = rng_for(cs, "mpi")
+            nprocs = rm.randint(1, min(nsl, 5))
+            root = rm.choice([None, 0, nprocs - 1])
+            sends = []
+
+            class Comm:
+                def __init__(self, rank):
+                    self.rank, self.size = rank, nprocs
+
+                def Allreduce(self, send, recv):
+                    sends.append(np.array(send, copy=True))
+
+                def Reduce(self, send, recv, root=0):
+                    sends.append(np.array(send, copy=True))
+
+            try:
+                for rank in range(nprocs):
+                    tree.contract_mpi(arrays, comm=Comm(rank), root=root)
+            except Exception as e:
+                return ("raises", f"contract_mpi (simulated, {nprocs} processes, root={root}) raised {type(e).__name__}: {e} | {traceback.format_exc()[-300:]}")
+            rep.mon("mpi_route")
+            if len(sends) != nprocs:
+                return ("mpi", f"{len(sends)} reductions entered by {nprocs} simulated processes")
+            total = sum(sends[1:], sends[0])
+            if np.shape(total) == (1,) and np.shape(want) == ():
+                # numpy.asfortranarray (used for the MPI buffers) returns ndim >= 1: a scalar result travels
+                # as a length-1 buffer; only the value is asserted (weaker reading)
+                total = total.reshape(())
+            r = cmp(total, f"contract_mpi over {nprocs} simulated processes ({nsl} slices)")
+            if r:
+                return r
 
         # ---- output chunks -------------------------------------------------------
         out_removed = [ix for ix in net.output if ix in rem_names]
